@@ -164,7 +164,7 @@ theorem task_queue_le (st : V2 M O) : st.task.1.queue.length ≤ st.queue.length
   · simp
   · simp
   · split
-    · simp
+    · split <;> simp
     · split <;> simp
 
 /-- a port-task step that is not parked strictly decreases the close-down measure -/
@@ -206,7 +206,7 @@ theorem task_closeMeasure (st : V2 M O) (hni : st.idle = false) :
       · rfl
       · rfl
       · split
-        · rfl
+        · split <;> rfl
         · split <;> rfl
     rcases batch_progress st srv todo seg left rest hpc with ⟨subs, ht⟩ | hlt
     · simp only [V2.closeMeasure, hq, ht, hpc]
@@ -603,7 +603,9 @@ theorem V1c.task_progress (st : V1c M O) (i : Nat) (f : Fwd M O) (hc : st.closed
       rw [this]
       simp only
       split
-      · right; simp
+      · split
+        · left; rfl
+        · right; simp
       · split
         · left; rfl
         · right; simp
